@@ -45,6 +45,13 @@ pub fn guard<T>(f: impl FnOnce() -> T) -> Result<T, String> {
 }
 
 pub const CHUNK: u64 = 4096;
+
+/// Work-unit size: a deterministic function of the space size only (so that the per-chunk digests
+/// of the three builds line up): small spaces with expensive cases are split finely enough to keep
+/// all workers busy.
+pub fn chunk_size(n: u64) -> u64 {
+    (n / 512).clamp(1, CHUNK)
+}
 /// Outcome digest used in ALL builds for a case whose input exceeds a documented no-allocator
 /// capacity (C18): the builds may legitimately differ there, but only by an `Err` in that build.
 pub const CAP_TOKEN: u64 = 0x0CA9_AC17;
@@ -308,7 +315,8 @@ const HANG_SECS: u64 = 30;
 pub fn run_space(sp: &Space, want_digest: bool) -> SpaceReport {
     let t0 = Instant::now();
     let n = sp.size;
-    let nchunks = n.div_ceil(CHUNK);
+    let chunk = chunk_size(n);
+    let nchunks = n.div_ceil(chunk);
     let next = AtomicU64::new(0);
     let nthreads = threads().min(nchunks.max(1) as usize).max(1);
     let chunks: Vec<AtomicU64> = if want_digest {
@@ -379,8 +387,8 @@ pub fn run_space(sp: &Space, want_digest: bool) -> SpaceReport {
                     if c >= nchunks {
                         break;
                     }
-                    let lo = c * CHUNK;
-                    let hi = (lo + CHUNK).min(n);
+                    let lo = c * chunk;
+                    let hi = (lo + chunk).min(n);
                     l.chunk_acc = 0;
                     for i in lo..hi {
                         cur[w].store(i, Ordering::Relaxed);
